@@ -60,7 +60,8 @@ class P(Prop):
 
     def gen_case(self):
         rng = self.rng
-        m = vgen.Module(rng, blackboxes=vgen.FLOPS if rng.random() < 0.4 else (), restricted=True)
+        # two cell libraries with the same module names: each call must use the definitions it is given
+        m = vgen.Module(rng, blackboxes=rng.choice([vgen.FLOPS, vgen.FLOPS_ALT]) if rng.random() < 0.4 else (), restricted=True)
         # all declared outputs must be driven: make input-outputs go through a buffer? (an output that is an input is driven)
         text = self.render(m)
         return m, text
@@ -108,9 +109,10 @@ class P(Prop):
         drv = self.driver()
         pats = fast_patterns()
         rng = self.rng
-        bbj = [[b.name, sorted(b.input_set), sorted(b.output_set)] for b in vgen.FLOPS]
         for i in range(n):
             m, text = self.gen_case()
+            flops = list(m.bbs) or list(vgen.FLOPS)
+            bbj = [[b.name, sorted(b.input_set), sorted(b.output_set)] for b in flops]
             junk = "".join(rng.choice("ab_1 ();,.\n\tinputassignendmodule'") for _ in range(rng.randint(0, 50)))
             for p, flags in pats:
                 for t in (text, junk):
@@ -122,7 +124,7 @@ class P(Prop):
                                   {"pattern": p, "text": t, "flags": flags})
             seed = rng.randint(0, 5)
             with ordered(seed):
-                o, c = call(cg.io.verilog_to_circuit, text, m.name, False, list(vgen.FLOPS), False, False, True)
+                o, c = call(cg.io.verilog_to_circuit, text, m.name, False, flops, False, False, True)
             mm = drv.ask({"op": "fast_verilog_read", "text": text, "bbs": bbj, "seed": seed})
             self.corr_cases += 1
             self.stats.case(text, nontrivial=len(m.stmts) >= 2, sample={"text": text} if i < 2 else None)
@@ -133,12 +135,16 @@ class P(Prop):
             if self.too_many():
                 break
 
-    def compare(self, text, name, bbs, tag=""):
-        case = {"text": text, "name": name}
+    def compare(self, text, name, bbs, tag="", valid=False):
+        case = {"text": text, "name": name, "bbs": [[b.name, sorted(b.input_set), sorted(b.output_set)] for b in bbs]}
         o1, c1 = call(cg.io.verilog_to_circuit, text, name, False, bbs, False, False, False)
         o2, c2 = call(cg.io.verilog_to_circuit, text, name, False, bbs, False, False, True)
         self.search_cases += 1
         if o1 != "ok":
+            if valid and o2 == "ok":
+                # a generated netlist of the subset (valid by construction): the reference parser must accept it
+                self.fail("search", f"full-raised-{o1}" + tag, f"the fast parser accepts but the full parser raised {o1}", case)
+                return
             self.stats.bump("full-parser-rejects")
             return
         if o2 != "ok":
@@ -168,7 +174,7 @@ class P(Prop):
     def search(self, n):
         for i in range(n):
             m, text = self.gen_case()
-            self.compare(text, m.name, list(vgen.FLOPS))
+            self.compare(text, m.name, list(m.bbs) or list(vgen.FLOPS), valid=True)
             if self.too_many():
                 break
         # bundled netlists that satisfy the restrictions (gate-level ISCAS files), small ones only in quick mode
@@ -190,7 +196,8 @@ class P(Prop):
                 break
 
     def replay(self, case):
-        self.compare(case["text"], case["name"], list(vgen.FLOPS))
+        bbs = [cg.BlackBox(n, i, o) for n, i, o in case["bbs"]] if case.get("bbs") else list(vgen.FLOPS)
+        self.compare(case["text"], case["name"], bbs)
 
 
 if __name__ == "__main__":
